@@ -82,6 +82,11 @@ def module_budget(mod, tier):
 def run_shard(mod, ctx, mon):
     """Run the module's workload for one shard, converting escapes into verdict material."""
     common.track_shm()
+    import warnings
+
+    # in-process runs of parallel_add free shared-memory sketches from arbitrary points (exception tracebacks, gc); CPython's
+    # resource tracker then warns about re-entrancy.  Leaks are checked separately (per-process segment tracking).
+    warnings.filterwarnings("ignore", message="ResourceTracker called reentrantly")
     try:
         mod.run(ctx, mon)
     except StopRun:
